@@ -340,3 +340,84 @@ Proof.
     assert (Hr : cresult (crun sched s (cstart ps)) i = Some r) by (unfold cresult; rewrite Hn; reflexivity).
     rewrite Hr. f_equal. eapply cache_final_safe; eassumption.
 Qed.
+
+(* ------------------------------------------------------------------ many keys: slots are independent *)
+
+Lemma set_nth_same : forall A (l : list A) i x, nth_error l i = Some x -> set_nth l i x = l.
+Proof.
+  induction l as [|y l IH]; intros i x H; destruct i; cbn in *; try discriminate.
+  - injection H as ->. reflexivity.
+  - f_equal. apply IH. exact H.
+Qed.
+
+Lemma map_set_nth : forall A B (f : A -> B) (l : list A) i x,
+    map f (set_nth l i x) = set_nth (map f l) i (f x).
+Proof. induction l as [|y l IH]; intros i x; destruct i; cbn; try reflexivity. f_equal. apply IH. Qed.
+
+Lemma kupd_same : forall m k s, kupd m k s k = s.
+Proof. intros. unfold kupd. rewrite Nat.eqb_refl. reflexivity. Qed.
+
+Lemma kupd_other : forall m k s k', k' <> k -> kupd m k s k' = m k'.
+Proof. intros m k s k' H. unfold kupd. apply Nat.eqb_neq in H. rewrite H. reflexivity. Qed.
+
+(* the run of the whole dictionary, seen from key k, IS the single-slot run of the threads of key k
+   (under the same schedule: steps of the other threads are no-ops of inert threads) *)
+Lemma kproj_set_own : forall k (ts : list kthread) i t',
+    kproj k (set_nth ts i (k, t')) = set_nth (kproj k ts) i t'.
+Proof. intros. unfold kproj. rewrite map_set_nth. cbn [fst snd]. rewrite Nat.eqb_refl. reflexivity. Qed.
+
+Lemma kproj_set_other : forall k k' (ts : list kthread) i t t',
+    Nat.eqb k' k = false -> nth_error ts i = Some (k', t) ->
+    kproj k (set_nth ts i (k', t')) = kproj k ts.
+Proof.
+  intros k k' ts i t t' Hk Hi. unfold kproj. rewrite map_set_nth. cbn [fst snd]. rewrite Hk.
+  apply set_nth_same. rewrite nth_error_map, Hi. cbn [option_map fst snd]. rewrite Hk. reflexivity.
+Qed.
+
+Theorem krun_project : forall sched m ts k,
+    crun sched (m k) (kproj k ts)
+    = (fst (krun sched m ts) k, kproj k (snd (krun sched m ts))).
+Proof.
+  induction sched as [|i sched IH]; intros m ts k; [reflexivity|].
+  cbn [crun krun].
+  assert (Hp : nth_error (kproj k ts) i
+               = option_map (fun kt : kthread => if Nat.eqb (fst kt) k then snd kt else Done CFinal) (nth_error ts i))
+    by (unfold kproj; apply nth_error_map).
+  rewrite Hp. clear Hp.
+  destruct (nth_error ts i) as [[k' t]|] eqn:Hi; cbn [option_map fst snd]; [|apply IH].
+  destruct (Nat.eqb k' k) eqn:Hk.
+  - apply Nat.eqb_eq in Hk. subst k'.
+    destruct (cstep (m k) t) as [s' t'] eqn:Hstep.
+    rewrite <- (kproj_set_own k ts i t').
+    rewrite <- (kupd_same m k s') at 1.
+    apply IH.
+  - cbn [cstep]. destruct (cstep (m k') t) as [s' t'] eqn:Hstep.
+    assert (Hne : k <> k') by (intro E; subst; rewrite Nat.eqb_refl in Hk; discriminate).
+    assert (Hsame : set_nth (kproj k ts) i (Done CFinal) = kproj k ts).
+    { apply set_nth_same. unfold kproj. rewrite nth_error_map, Hi. cbn [option_map fst snd]. rewrite Hk. reflexivity. }
+    rewrite Hsame.
+    rewrite <- (kproj_set_other k k' ts i t t' Hk Hi).
+    rewrite <- (kupd_other m k' s' k Hne) at 1.
+    apply IH.
+Qed.
+
+(* hence the single-slot theorem lifts to the whole cache: threads working on any keys, any schedule *)
+Theorem cache_keyed_final_safe : forall kps sched m i r,
+    forallb (fun kp : nat * cprog => stores_final (snd kp)) kps = true ->
+    (forall k, slot_ok (m k)) ->
+    kresult (krun sched m (kstart kps)) i = Some r -> r = CFinal.
+Proof.
+  intros kps sched m i r Hps Hm Hr. unfold kresult in Hr.
+  destruct (nth_error (snd (krun sched m (kstart kps))) i) as [[k t]|] eqn:Hn; [|discriminate].
+  destruct t as [rest|v]; [discriminate|]. injection Hr as <-.
+  pose proof (krun_project sched m (kstart kps) k) as Hproj.
+  assert (Hok : Forall tstate_ok (kproj k (kstart kps))).
+  { unfold kproj, kstart. rewrite map_map. clear - Hps. induction kps as [|kp kps IH]; cbn; constructor.
+    - cbn in Hps. apply andb_true_iff in Hps as [H1 _]. cbn [fst snd]. destruct (Nat.eqb (fst kp) k); cbn; [exact H1|reflexivity].
+    - apply IH. cbn in Hps. apply andb_true_iff in Hps. tauto. }
+  destruct (crun_ok sched (m k) (kproj k (kstart kps)) (Hm k) Hok) as [_ Hall].
+  rewrite Hproj in Hall. cbn [snd] in Hall.
+  assert (Hin : nth_error (kproj k (snd (krun sched m (kstart kps)))) i = Some (Done v)).
+  { unfold kproj. rewrite nth_error_map, Hn. cbn [option_map fst snd]. rewrite Nat.eqb_refl. reflexivity. }
+  exact (nth_error_Forall _ _ _ _ _ Hall Hin).
+Qed.
